@@ -219,3 +219,34 @@ Example C02_max_rank_nonvacuous :
   hll_show (hll_registers (hll_eval 7 (2^64 - 1)
      (HlMerge (HlAdd HlNew kr44 1) (HlMerge (HlAdd HlNew kr58 1) (HlAdd HlNew kr1 1))))) 128 = [(5, 58)].
 Proof. repeat split; vm_compute; reflexivity. Qed.
+
+(* ---------------- source ties ----------------
+   _add (hyperloglog.py l.191-199, everything after hash_val = fasthash64(key, seed)) as regenerated from the source
+   AST on this run (generated/KernelsHllAdd.v): (hash_val, p, m, registers[reg_idx]) -> (reg_idx, new register).
+   The generated definition follows the uniform 64-bit register rule; hll_idx / hll_rank write out Numba's mixed
+   int64 / uint64 typing; they agree on the constructor's precision range, m = 2^p and 64-bit hash values *)
+From Sketchnu Require KernelsHllAdd KernelTieHllAdd.
+Theorem C02_add_source_tie :
+  (forall hv p old : Z, hll_p_min <= p <= hll_p_max -> 0 <= hv < 2^64 ->
+     KernelsHllAdd.gen_hll_add hv p (2^p) old = (hll_idx (2^p) hv, wrap8 (Z.max old (hll_rank p hv)))) /\
+  (forall (registers : regs) (seed p : Z) (k : key) (i : Z), hll_p_min <= p <= hll_p_max -> 0 <= seed < 2^64 ->
+     hll_add registers seed p (2^p) k i =
+     let hv := fasthash64 k seed in
+     let idx := fst (KernelsHllAdd.gen_hll_add hv p (2^p) 0) in
+     if i =? idx then snd (KernelsHllAdd.gen_hll_add hv p (2^p) (registers idx)) else registers i).
+Proof. exact KernelTieHllAdd.tie_hll_add_all. Qed.
+Print Assumptions C02_add_source_tie.
+
+(* the body of _merge's loop (l.259): (registers[i], other_registers[i]) -> registers[i] *)
+Theorem C02_merge_source_tie :
+  (forall x y : Z, KernelsHllAdd.gen_hll_merge_cell x y = wrap8 (Z.max x y)) /\
+  (forall (a b : regs) (m i : Z),
+     hll_merge a b m i = if andb (0 <=? i) (i <? m) then KernelsHllAdd.gen_hll_merge_cell (a i) (b i) else a i).
+Proof. exact KernelTieHllAdd.tie_hll_merge_all. Qed.
+Print Assumptions C02_merge_source_tie.
+
+Example C02_source_tie_nonvacuous :
+  KernelsHllAdd.gen_hll_add (2^63 + 5) 7 128 0 = (5, 1) /\ KernelsHllAdd.gen_hll_add 5 7 128 3 = (5, 58) /\
+  KernelsHllAdd.gen_hll_add (2^20 + 5) 7 128 60 = (5, 60) /\ KernelsHllAdd.gen_hll_add (2^64 - 1) 16 65536 0 = (65535, 1) /\
+  KernelsHllAdd.gen_hll_merge_cell 3 9 = 9 /\ KernelsHllAdd.gen_hll_merge_cell 9 3 = 9.
+Proof. vm_compute. repeat split; reflexivity. Qed.
